@@ -40,14 +40,14 @@ META = {
 FAMILIES = {
     "quick": [(1, 2, 3, 3, 9), (2, 2, 3, 3, 9), (3, 2, 3, 3, 4), (4, 1, 3, 3, 3), (4, 2, 2, 2, 2),
               (5, 1, 3, 1, 3), (5, 1, 2, 2, 2), (6, 1, 2, 1, 2)],
-    "thorough": [(1, 2, 3, 3, 9), (2, 2, 3, 3, 9), (3, 2, 3, 3, 9), (4, 1, 3, 3, 9), (4, 2, 3, 3, 3),
+    "thorough": [(1, 2, 3, 3, 9), (2, 2, 3, 3, 9), (3, 2, 3, 3, 9), (4, 1, 3, 3, 4), (4, 2, 3, 3, 3),
                  (5, 1, 3, 2, 3), (5, 2, 2, 2, 2), (6, 1, 3, 1, 3), (6, 1, 2, 2, 2)],
 }
 N_RANDOM = {"quick": 0, "thorough": 40000}
 
 TOP_META = {"model": "PHSP", "model_params": [1.5, "x"], "study": {"k": [1, None, "a"]}, "year": 2019}
 SUB_METAS = [{}, {"model": "VSS"}, {"model": "HELAMP", "model_params": [1.0, 0.0], "note": "sub"}]
-S_TYPES = [tuple, list, set, frozenset]
+TIME_LIMIT = 3.0     # seconds for one flatten call (normally < 1 ms); beyond: reported as not returning
 
 
 # ----------------------------------------------------------------------------------------------------
@@ -87,7 +87,8 @@ def check_case(chain, S, s_type="tuple", use_default=False, cache=None):
     cache = {} if cache is None else cache
     st = {"tuple": tuple, "list": list, "set": set, "frozenset": frozenset}[s_type](S)
     try:
-        res = dc.flatten() if use_default else dc.flatten(stable_particles=st)
+        with cs.time_limit(TIME_LIMIT):
+            res = dc.flatten() if use_default else dc.flatten(stable_particles=st)
     except Exception as ex:  # the property promises a result for every acyclic chain
         return [("flatten.returns", FLATTEN, "raised %r" % (ex,))]
     after = snapshot(dc)
@@ -123,7 +124,8 @@ def check_case(chain, S, s_type="tuple", use_default=False, cache=None):
         out.append(("flatten.keeps_top_metadata", FLATTEN, "metadata expected %r, got %r" % (top_meta, mode.metadata)))
     if not S:
         try:
-            vis = dc.visible_bf
+            with cs.time_limit(TIME_LIMIT):
+                vis = dc.visible_bf
         except Exception as ex:
             vis = ex
         if not (vis == mode.bf):
@@ -211,6 +213,7 @@ def _worker(task):
     fails = []
     sample = None
     big = 0
+    aborted = False
     if kind == "family":
         _k, key, sl = task
         shapes = cs.family_shapes(cs.Family(*key), sl)
@@ -231,11 +234,16 @@ def _worker(task):
             if res and len(fails) < 40:
                 for clause, func, what in res:
                     fails.append(_fail_record(chain, S, st, dflt, clause, func, what))
+                if any("CallTimeout" in what for _c, _f, what in res):
+                    aborted = True
+                    break
+        if aborted:       # do not spend the time limit again and again in this slice
+            break
             if sample is None and first and len(S) >= 1 and len(shape) >= 3:
                 sample = {"chain": cs.chain_to_json(chain), "S": list(S), "s_type": st,
                           "leaves": sorted(cs.leaves(chain, S).items()), "bf": str(cs.bf(chain, S))}
     return dict(task=list(task[:2]) if kind == "family" else ["random"], evals=evals, distinct=distinct, nontriv=nontriv,
-                shapes=nshapes, shapes_gt3_subdecays=big, fails=fails, sample=sample)
+                shapes=nshapes, shapes_gt3_subdecays=big, fails=fails, sample=sample, aborted=aborted)
 
 
 def random_shapes(seed, count):
@@ -279,6 +287,7 @@ def run(tier: str, seed: int) -> dict:
             k = str(tuple(r["task"][1])) if r["task"][0] == "family" else "random"
             per_family[k] = per_family.get(k, 0) + r["shapes"]
             fails += r["fails"]
+            tot["aborted"] = tot.get("aborted", 0) + (1 if r.get("aborted") else 0)
             if r["sample"] and len(samples) < 4 and (not samples or len(r["sample"]["chain"]["decays"]) != len(samples[-1]["chain"]["decays"])):
                 samples.append(r["sample"])
     except Exception as ex:  # pragma: no cover
@@ -306,7 +315,7 @@ def run(tier: str, seed: int) -> dict:
                  "mother, stable set) triples = %d, non-trivial = those whose tree (after making the stable set leaves) still "
                  "contains at least one sub-decay to substitute; orders of the mapping, container types and Fraction/float "
                  "variants of a triple are not counted again" % tot["distinct"]),
-        "exhaustive": True,
+        "exhaustive": not tot.get("aborted"), "slices_aborted_after_timeout": tot.get("aborted", 0),
         "shapes": tot["shapes"], "shapes_with_more_than_3_subdecays": tot["big"], "shapes_per_family": per_family,
         "samples": samples, "failures": keep, "errors": errors, "seconds": round(time.time() - t0, 2),
     }
